@@ -1024,6 +1024,12 @@ def x_chain(c):
     c.ret(None)
 
 
+@ext("io.StringIO", "io.BytesIO")
+def x_stringio(c):
+    t = Fresh("buffer")
+    c.ret(t, ("type", t, frozenset(["obj:io.buffer"])), pure=False)
+
+
 @ext("collections.Counter")
 def x_counter(c):
     """Counter(iterable of hashables): a dict of counts"""
@@ -1567,6 +1573,11 @@ def _opaque_obj_method(c):
 def apply_method(w, e, mname, recv, args, kwargs, s):
     c = Ctx(w, e, "method:" + mname, args, kwargs, s, recv=recv)
     ts = s.types(recv)
+    if ts is None and isinstance(recv, tuple) and len(recv) == 2 and recv[0] == "global" and recv[1].startswith("const:"):
+        # a module-level library object: logger = logging.getLogger(__name__)
+        lit = w.eng.const_literal(recv[1][6:])
+        if lit is not None and is_call(lit, ("ext:logging.getLogger", "ext:logging.Logger")):
+            ts = frozenset(["obj:logger"])
     # library objects
     if ts is not None and ts <= {"obj:argparse"}:
         if mname == "parse_args":
